@@ -132,7 +132,7 @@ def op_trim_trace(seval, args):
     new_max_index = seval.eval(args[1])
     assert isinstance(tid, (str, Symbol)), 'trim-trace: first argument must evaluate to symbol or string'
     assert isinstance(new_max_index, int), 'trim-trace: second argument must evaluate to int'
-    tid = tid.name if isinstance(tid, str) else tid.name
+    tid = tid if isinstance(tid, str) else tid.name
     return seval.traces.traces[tid].set_max_index(new_max_index)
 
 
